@@ -8,7 +8,7 @@ package log
 // the next receive (=> channel order, never interleaved); a write error is reported once, never a second write;
 // a timer tick only flushes. Exits: cancellation or closed stream.
 //@ func (*logger).LogResults
-//@   props C14 C12 C16
+//@   props C14 C12 C16 C08
 //@   observe Write, (*logger).Error, (*bufio.Writer).Flush, time.After
 //@   loop 0 row cancel:    [ctxdone ; call Flush(_)] -> exit
 //@   loop 0 row closed:    [recv results as (v, false) ; call Flush(_)] -> exit
@@ -20,7 +20,7 @@ package log
 // JSON writer: MarshalJSON once; on success exactly one Fprintf of the marshalled bytes followed by a newline
 // (one line per result, one write, never split); on failure nothing is written.
 //@ func (*JSONResultWriter).Write
-//@   props C14
+//@   props C14 C08 C11
 //@   observe MarshalJSON, fmt.Fprintf
 //@   entry row fail: [call MarshalJSON(result) as (d, e)] when e != nil && ret == e -> exit
 //@   entry row line: [call MarshalJSON(result) as (d, e) ; call fmt.Fprintf(w, "%s\n", bind_a)] when e == nil && ret == nil && len(a) == 1 && istype(a[0], []byte) && astype(a[0], []byte) == d -> exit
